@@ -802,7 +802,7 @@ func TestVerifRpcPending(t *testing.T) {
 		}
 	}
 	rng := env.Rand()
-	for i, n := 0, env.Pick(12, 80); i < n; i++ {
+	for i, n := 0, env.Pick(12, 40); i < n; i++ {
 		runHistory(rep, rec, rng.Int63n(1<<40), 8+rng.Intn(40), env.Pick(12, 24), 1+rng.Intn(2), fmt.Sprintf("h%d", i))
 	}
 	if err := rec.Close(); err != nil {
